@@ -83,6 +83,8 @@ fam({'C08': ('main', 'all')},
     driver='caster', tv='CasterTV',
     mc_quick=[('PubSubL2', 'PubSubL2')], mc_thorough=[('PubSubL2', 'PubSubL2'), ('PubSubL2', 'PubSubL2_2s'), ('PubSubL2', 'PubSubL2_3u')],
     n=(80, 300, 2000, 8000))
+# real parallelism: rounds in which a Send starts at the same instant as several deregistrations (free-running only)
+F['C08'] = dict(F['C08'], legs=[dict(driver='caster', profile='stress', prop='all', tv='CasterTV', n=(0, 40, 0, 400), mc_quick=[], mc_thorough=[])])
 fam({'C20': ('main', 'all')},
     driver='attempt', tv='AttemptTV', mc_quick=[('AttemptMC', 'AttemptMC')], mc_thorough=[('AttemptMC', 'AttemptMC_big')],
     n=(120, 150, 3000, 2000))
